@@ -48,6 +48,22 @@ int save_svalue_depth = 0;
 int save_max_depth;
 int *save_svalue_sizes = 0;
 
+/* The text a float is saved as. "%g" prints integral values like integers: they get a ".0" so that they are floats
+ * again when restored. Infinities and NaN would be printed as "inf" / "nan", which restore as 0: they are written as
+ * numbers that the parser on the other side turns back into them (x * pow (10, 999)). */
+static void real_to_save_text (char *buf, double d) {
+  if (d != d)
+    strcpy (buf, "0.0e+999");
+  else if (d - d != 0.0)
+    strcpy (buf, d > 0 ? "1.0e+999" : "-1.0e+999");
+  else
+    {
+      sprintf (buf, "%g", d);
+      if (strspn (buf, "-0123456789") == strlen (buf))
+        strcat (buf, ".0");
+    }
+}
+
 /**
  * Calculate the size needed to save an svalue_t.
  */
@@ -139,9 +155,7 @@ size_t svalue_save_size (const svalue_t * v) {
     case T_REAL:
       {
         char buf[256];
-        sprintf (buf, "%g", v->u.real);
-        if (strspn (buf, "-0123456789") == strlen (buf))
-          strcat (buf, ".0"); /* as in save_svalue(): integral values get a ".0" */
+        real_to_save_text (buf, v->u.real);
         return strlen (buf) + 1; /* 1 for comma/colon */
       }
 
@@ -244,9 +258,7 @@ void save_svalue (svalue_t * v, char **buf) {
 
     case T_REAL:
       {
-        sprintf (*buf, "%g", v->u.real);
-        if (strspn (*buf, "-0123456789") == strlen (*buf))
-          strcat (*buf, ".0"); /* "%g" prints integral floats like integers: keep them floats when restored */
+        real_to_save_text (*buf, v->u.real);
         (*buf) += strlen (*buf);
         return;
       }
@@ -664,8 +676,11 @@ static int parse_numeric (char **cpp, char c, svalue_t * dest) {
             {
               while ((c = *cp++) && isdigit (c))
                 {
-                  expo *= 10;
-                  expo += (c - '0');
+                  if (expo < 100000)	/* saturates: pow() is at its limit long before */
+                    {
+                      expo *= 10;
+                      expo += (c - '0');
+                    }
                 }
               f1 *= pow (10.0, expo);
             }
@@ -673,8 +688,11 @@ static int parse_numeric (char **cpp, char c, svalue_t * dest) {
             {
               while ((c = *cp++) && isdigit (c))
                 {
-                  expo *= 10;
-                  expo += (c - '0');
+                  if (expo < 100000)	/* saturates: pow() is at its limit long before */
+                    {
+                      expo *= 10;
+                      expo += (c - '0');
+                    }
                 }
               f1 *= pow (10.0, -expo);
             }
@@ -696,8 +714,11 @@ static int parse_numeric (char **cpp, char c, svalue_t * dest) {
         {
           while ((c = *cp++) && isdigit (c))
             {
-              expo *= 10;
-              expo += (c - '0');
+              if (expo < 100000)	/* saturates: pow() is at its limit long before */
+                {
+                  expo *= 10;
+                  expo += (c - '0');
+                }
             }
           f1 = (double)res * pow (10.0, expo);
         }
@@ -705,8 +726,11 @@ static int parse_numeric (char **cpp, char c, svalue_t * dest) {
         {
           while ((c = *cp++) && isdigit (c))
             {
-              expo *= 10;
-              expo += (c - '0');
+              if (expo < 100000)	/* saturates: pow() is at its limit long before */
+                {
+                  expo *= 10;
+                  expo += (c - '0');
+                }
             }
           f1 = (double)res * pow (10.0, -expo);
         }
